@@ -12,6 +12,11 @@ Abstract inputs (small JSON):
       ['e', ev, snd, args, kw, single]           emit(event, sender, *args, **kw[, single=...]); single None|bool
   kind 'histx': inp = {'ops': [...as 'hist'...], 'raise': [fid, ...]}: the callbacks with these ids raise after
       recording the call; an emit is then observed as ['raise', calls made] when the exception propagated
+  'hist' / 'histx' inputs may carry 'names': [s0, s1, bad] (stage 5) = the SPELLING of the two events (event i is the
+      string s_i in emit(...) / connect(event=...), and a callback "named after event i" is a function called
+      'on_' + s_i) and of the __name__ of the callbacks that are not named on_<event> (default ['ev0', 'ev1', None]:
+      bad name 'cb<fid>'). The Coq model speaks about abstract event ids: the spelling is an implementation-side
+      axis, every injective spelling must give the same observations.
   kind 'prog': inp = {'ops': [['inc'] | ['v', x] | ['m', x] | ['sc'] | ['rs', None|x], ...]}; 'inc' and 'sc' may carry
       a second element [[key, value], ...] = keyword arguments k<key>=value of increment() / set_complete()
 """
@@ -29,7 +34,12 @@ RULE = ('exhaustive: every well-bracketed operation sequence up to the tier\'s l
         '(2 events, 3 senders, 5 callbacks incl. bound methods, multi-item unconnect, arguments/keywords, '
         'single None/True/False). Every emitter history is run under two implementation-side configurations '
         '(fresh EventEmitter with identity senders and direct connect calls; the module-level global emitter '
-        'with decorator-style connects and value-equal sender objects). Non-trivial = some emit called a '
+        'with decorator-style connects and value-equal sender objects). Every generated emitter history carries a '
+        'drawn spelling of its two event names (any Python identifier tail: names that begin / end with the '
+        'characters of the by-name prefix "on_", contain "on_", are one character long, digits, upper case, '
+        'non-ASCII, and pairs where one name is a prefix / suffix / "on_"-, "n_"-, "_"-extension of the other) and of '
+        'the name of the callbacks that are not on_<event> ("on_", "on", "xon_<event>", "On_<event>", "<lambda>", ...). '
+        'Non-trivial = some emit called a '
         'callback or was silenced / some completion was announced; distinct = distinct abstract history.')
 EXHAUSTIVE = {'quick': True, 'thorough': True}
 CLAUSES = {
@@ -92,16 +102,84 @@ def normalise(ops):
     return out
 
 
-def _hist(ops):
-    return {'kind': 'hist', 'inp': {'ops': normalise(ops)}}
+def _with_names(case, names):
+    if names is not None and list(names) != DEFAULT_NAMES:
+        case['inp']['names'] = list(names)
+    return case
+
+
+def _hist(ops, names=None):
+    return _with_names({'kind': 'hist', 'inp': {'ops': normalise(ops)}}, names)
 
 
 def _prog(ops):
     return {'kind': 'prog', 'inp': {'ops': list(ops)}}
 
 
-def _histx(ops, raisers):
-    return {'kind': 'histx', 'inp': {'ops': normalise(ops), 'raise': sorted(set(raisers))}}
+def _histx(ops, raisers, names=None):
+    return _with_names({'kind': 'histx', 'inp': {'ops': normalise(ops), 'raise': sorted(set(raisers))}}, names)
+
+
+# ---- stage 5: spelling of the event names (implementation-side axis) --------------------------------------
+
+DEFAULT_NAMES = ['ev0', 'ev1', None]
+# tails of `on_<event>`: begin with a character of the prefix, end with one, contain the prefix, one character,
+# digits, upper case, dunder, non-ASCII identifiers, long
+NAME_POOL = ['next', 'open', 'new_cluster', 'n', 'o', '_', 'noon', 'on', 'no', 'on_', 'on_x', 'on_on_', '__init__', '_x',
+             'o0', 'n_', 'onon', 'none', 'not_on', 'select', 'cluster', 'button', 'x_', 'selection', 'xon_y', 'a', 'x',
+             '0', '2d', '10', 'On_x', 'ON', 'Next', 'N', 'O', 'my_event', 'test', 'progress', 'complete', 'ev',
+             'ev0', 'ev1', 'ev10', 'e', 'v', 'gui_ready', 'add_view', 'close', 'is_busy', 'request_save',
+             '\u00e9', '\u00f1and\u00fa', '\u043e', '\u03bd_x', '\u4e8b\u4ef6', 'a' * 40, 'on_' * 5 + 'z']
+# one name derived from the other
+NAME_DERIVE = [lambda a: 'on_' + a, lambda a: 'n_' + a, lambda a: '_' + a, lambda a: 'o' + a, lambda a: 'n' + a,
+               lambda a: a + '_', lambda a: a + '_on', lambda a: a + 'n', lambda a: a + a, lambda a: a.upper(),
+               lambda a: a.swapcase(), lambda a: a[:-1], lambda a: a[1:], lambda a: a.lstrip('on_'), lambda a: a.strip('_'),
+               lambda a: a + '0', lambda a: a[::-1]]
+# __name__ of a callback that is NOT on_<event> ('{0}' = spelling of event 0): connect by name must raise ValueError
+BAD_POOL = [None, 'on_', 'on', 'o', '_', 'xon_{0}', 'On_{0}', 'ON_{0}', 'on{0}', '_on_{0}', ' on_{0}', 'non_{0}', 'no_{0}',
+            '{0}', '{0}_on_', 'on-{0}', '<lambda>', 'on', 'callback', 'On_', 'o_n_{0}', '\u043en_{0}']
+
+
+def _rand_name(rng):
+    r = rng.random()
+    if r < 0.7:
+        return rng.choice(NAME_POOL)
+    if r < 0.9:      # over the characters of the prefix and a few others
+        return ''.join(rng.choice('on_on_aexs01') for _ in range(rng.randint(1, 8)))
+    return ''.join(rng.choice('abcdefghijklmnopqrstuvwxyz_0123456789ABCXYZ') for _ in range(rng.randint(1, 12)))
+
+
+def _draw_names(rng):
+    """[s0, s1, bad]: two distinct non-empty event names and the name of the not-on_<event> callbacks."""
+    if rng.random() < 0.12:
+        s0, s1 = 'ev0', 'ev1'
+    else:
+        while True:
+            s0 = _rand_name(rng)
+            s1 = rng.choice(NAME_DERIVE)(s0) if rng.random() < 0.4 else _rand_name(rng)
+            if rng.random() < 0.5:
+                s0, s1 = s1, s0
+            if s0 and s1 and s0 != s1:
+                break
+    bad = rng.choice(BAD_POOL) if rng.random() < 0.8 else None
+    if bad is not None:
+        bad = bad.replace('{0}', s0)
+        if bad[:3] == 'on_' and len(bad) > 3:       # that IS an on_<event> name (s0 itself begins with on_)
+            bad = None
+    return [s0, s1, bad]
+
+
+def _respell(cases, rng):
+    """Give every emitter history of `cases` a drawn spelling (in place)."""
+    for c in cases:
+        if c['kind'] in ('hist', 'histx') and 'names' not in c['inp']:
+            _with_names(c, _draw_names(rng))
+    return cases
+
+
+def _names_of(inp):
+    s0, s1, bad = inp.get('names') or DEFAULT_NAMES
+    return s0, s1, bad
 
 
 SMALL = [C(F0), C(F1, style=0, sf=0), C(F2, style=0, last=True), U(F0), U(0), R, EN, EX, SS(True), SS(False),
@@ -291,6 +369,17 @@ def corpus():
     cs.append(_prog([['m', 2], ['inc', [[0, 3]]], ['inc', [[0, 4], [1, 1]]], ['inc', [[1, 2]]], ['sc', [[0, 9]]]]))
     cs.append(_prog([['inc', [[0, 1]]], ['m', 3], ['sc', [[0, 2]]], ['v', 5], ['m', 8], ['v', 3], ['m', -4], ['v', -1]]))
     cs.append(_prog([['m', 3], ['v', 1], ['v', 2], ['m', 9], ['v', 5], ['v', 7], ['rs', 5], ['v', 3]]))  # inexact quotients
+    # --- stage 5: the spelling of the event names (by-name connect derives the event from `on_<event>`) ---
+    e1 = E(1, 0, (7,))
+    byname = [C(F1, 0), C(F0), C(F3, None, None, True), C(F1), e, e1, U(F0), e, e1]     # explicit + by name, same event
+    for nm in (['next', 'open', None], ['new_cluster', 'n', 'on_'], ['_', 'o', 'on'], ['noon', 'on', '<lambda>'],
+               ['on_x', 'x', 'xon_on_x'], ['x', 'on_x', 'On_x'], ['n_a', 'a', 'non_n_a'], ['a', 'a_', 'a'],
+               ['button', 'butto', 'o'], ['ev', 'ev0', None], ['Next', 'next', 'ON_Next'], ['0', '10', '_'],
+               ['\u00e9', '\u043e', '\u043en_\u00e9'], ['on_on_', 'on_', ' on_x']):
+        cs.append(_hist(byname, nm))
+    cs.append(_hist([C(F2), C(F4), C(F0), e, C(F2, 0), e], ['next', 'open', 'on_']))     # ValueError for 'on_' / 'xon_..'
+    cs.append(_hist([C(F2), C(F4), C(F0), e, C(F2, 0), e], ['open', 'next', 'xon_open']))
+    cs.append(_histx([C(F0), C(F1, 0), C(F1), e, e1], [1], ['open', 'next', None]))
     return cs
 
 
@@ -303,7 +392,7 @@ def generate(tier, rng):
             cases.append(_rand_prog(rng, 2, 10))
         for _ in range(3000):
             cases.append(_rand_histx(rng, 2, 10))
-        return cases
+        return _respell(cases, rng)
     quick = tier == 'quick'
     cases += list(_exhaustive_hist(4 if quick else 5, SMALL))
     cases += list(_exhaustive_hist(5 if quick else 6, SILENCING))
@@ -319,7 +408,8 @@ def generate(tier, rng):
         cases.append(_rand_prog(rng, 2, 9 if quick else 12))
     for _ in range(nh // 4):
         cases.append(_rand_histx(rng, 2, 9 if quick else 12))
-    return cases
+    # stage 5: every history gets a drawn spelling of its event names (drawn last: the histories above are unchanged)
+    return _respell(cases, rng)
 
 
 # ---- implementation side -------------------------------------------------------------------------
@@ -377,8 +467,9 @@ class _Boom(Exception):
 
 
 class _World(object):
-    def __init__(self, cfg, raisers=()):
+    def __init__(self, cfg, raisers=(), names=None):
         self.cfg = cfg
+        self.names = list(names or DEFAULT_NAMES)
         self.raisers = frozenset(raisers)
         self.log = []
         self.funcs = {}
@@ -402,6 +493,9 @@ class _World(object):
                 self.objs[i] = (_Obj if self.cfg == 0 else _VObj)(i)
             return self.objs[i]
         return _VObj(i)
+
+    def ev(self, i):
+        return self.names[i]
 
     def func(self, fid, name, owner):
         key = (fid, name, owner)
@@ -428,7 +522,7 @@ class _World(object):
                     raise _Boom(fid)
                 return ('res', rec)
             f = types.MethodType(body, self.obj(owner, canonical=True))
-        body.__name__ = ('on_ev%d' % name) if name is not None else ('cb%d' % fid)
+        body.__name__ = ('on_' + self.ev(name)) if name is not None else (self.names[2] or 'cb%d' % fid)
         body.__qualname__ = body.__name__
         self.funcs[key] = f
         return f
@@ -440,7 +534,7 @@ class _World(object):
             f = self.func(fid, name, owner)
             kw = {}
             if style is not None:
-                kw['event'] = 'ev%d' % style
+                kw['event'] = self.ev(style)
             if sf is not None:
                 kw['sender'] = self.obj(sf)
             if self.cfg == 0:
@@ -499,7 +593,7 @@ class _World(object):
                 kwargs['single'] = single
             n0 = len(self.log)
             try:
-                r = self.emit('ev%d' % evn, self.obj(snd), *args, **kwargs)
+                r = self.emit(self.ev(evn), self.obj(snd), *args, **kwargs)
             except _Boom:
                 return ['raise', self.log[n0:]]
             calls = self.log[n0:]
@@ -525,8 +619,8 @@ class _World(object):
             self.set_silent(False)
 
 
-def _run_hist(ops, cfg, raisers=()):
-    w = _World(cfg, raisers)
+def _run_hist(ops, cfg, raisers=(), names=None):
+    w = _World(cfg, raisers, names)
     out = []
     try:
         for o in ops:
@@ -629,14 +723,14 @@ def run_case(case):
     if k == 'hist':
         runs = []
         for cfg in (0, 1):
-            r = _run_hist(i['ops'], cfg)
+            r = _run_hist(i['ops'], cfg, (), i.get('names'))
             if r not in runs:
                 runs.append(r)
         return ('hist', runs)
     if k == 'histx':
         runs = []
         for cfg in (0, 1):
-            r = _run_hist(i['ops'], cfg, i['raise'])
+            r = _run_hist(i['ops'], cfg, i['raise'], i.get('names'))
             if r not in runs:
                 runs.append(r)
         return ('histx', runs)
@@ -815,6 +909,16 @@ def dist(case, obs):
     if obs[0] == 'crash':
         out.append('crash=' + obs[1])
         return out
+    if k in ('hist', 'histx'):
+        s0, s1, bad = _names_of(case['inp'])
+        out.append('names=' + ('default' if [s0, s1] == DEFAULT_NAMES[:2] else 'drawn'))
+        byname = [o[2] for o in ops if o[0] == 'c' and o[4] is None and o[2] is not None]
+        if any((s0, s1)[n][:1] in ('o', 'n', '_') for n in byname):
+            out.append('names.by_name_connect_of_event_beginning_with_o_n_underscore')
+        if any('on_' in (s0, s1)[n] for n in byname):
+            out.append('names.by_name_connect_of_event_containing_on_')
+        if bad is not None and any(o[0] == 'c' and o[4] is None and o[2] is None for o in ops):
+            out.append('names.by_name_connect_of_drawn_non_on_name')
     if k == 'histx':
         run = obs[1][0]
         out.append('histx.raising_emits=%s' % _bucket(sum(1 for x in run if x[0] == 'raise')))
@@ -862,25 +966,37 @@ def dist(case, obs):
 
 
 def size(case):
-    return len(case['inp']['ops']) * 1000 + len(str(case['inp']['ops']))
+    return len(case['inp']['ops']) * 1000 + len(str(case['inp']['ops'])) + len(str(case['inp'].get('names') or ''))
 
 
 def shrink(case):
     k, ops = case['kind'], case['inp']['ops']
     if k == 'histx':
         rs = case['inp']['raise']
-        mk = lambda new: _histx(new, rs)
+        nm = case['inp'].get('names')
+        mk = lambda new: _histx(new, rs, nm)
         for j in range(len(rs)):
             if len(rs) > 1:
-                yield _histx(ops, rs[:j] + rs[j + 1:])
+                yield _histx(ops, rs[:j] + rs[j + 1:], nm)
+    elif k == 'hist':
+        nm = case['inp'].get('names')
+        mk = lambda new: _hist(new, nm)
     else:
-        mk = _hist if k == 'hist' else _prog
+        nm = None
+        mk = _prog
+    if nm is not None:
+        # simplify the spelling: all default, then one component at a time
+        mkn = (lambda n: _histx(ops, case['inp']['raise'], n)) if k == 'histx' else (lambda n: _hist(ops, n))
+        yield mkn(None)
+        for j in range(3):
+            if nm[j] != DEFAULT_NAMES[j] and (j == 2 or nm[1 - j] != DEFAULT_NAMES[j]):
+                yield mkn(nm[:j] + [DEFAULT_NAMES[j]] + nm[j + 1:])
     seen = set()
 
     def emit_(new):
         c = mk(new)
         key = str(c['inp']['ops'])
-        if key not in seen and c['inp']['ops'] != ops:
+        if key not in seen and c['inp']['ops'] != list(ops):
             seen.add(key)
             return c
     # drop one operation (and a matching pair of enter/leave)
@@ -959,6 +1075,8 @@ def repro(case):
                   "case = %r\n"
                   "# per operation: ['n'] | ['err'] (ValueError on connect by name) | ['emit', calls received, returned value];\n"
                   "# a call record is [func id, event in its name, owner, sender, args, kwargs]\n"
+                  "# case['inp']['names'] = [spelling of event 0, of event 1, __name__ of the callbacks not named on_<event>]\n"
                   "for cfg in (0, 1):\n"
-                  "    for op, ob in zip(case['inp']['ops'], c19._run_hist(case['inp']['ops'], cfg, case['inp'].get('raise', ()))):\n"
+                  "    for op, ob in zip(case['inp']['ops'], c19._run_hist(case['inp']['ops'], cfg, case['inp'].get('raise', ()),\n"
+                  "                                                      case['inp'].get('names'))):\n"
                   "        print(cfg, op, '->', ob)\n" % (case,))
